@@ -33,7 +33,8 @@ def _name(cp):
     ch = chr(cp)
     if ch.isalpha() and _isascii(ch):
         return ch
-    return "%x" % cp
+    # at least two digits: "a".."f" name the letters, not U+000A..U+000F
+    return "%02x" % cp
 
 
 def glyph_name(codepoints):
